@@ -8,8 +8,18 @@ package server
 
 import (
 	"encoding/json"
+	"os"
 	"sort"
 )
+
+// vFSelectIO lets several harness tests run in one `go test` process: a test
+// named X reads VERIF_STIMULI_X / VERIF_TRACE_OUT_X when they are set.
+func vFSelectIO(suffix string) {
+	if p := os.Getenv("VERIF_STIMULI_" + suffix); p != "" {
+		os.Setenv("VERIF_STIMULI", p)
+		os.Setenv("VERIF_TRACE_OUT", os.Getenv("VERIF_TRACE_OUT_"+suffix))
+	}
+}
 
 func vFJSON(v interface{}) ([]byte, error) { return json.Marshal(v) }
 
@@ -110,3 +120,24 @@ func v12ErrClass(err error) string {
 	return "other:" + err.Error()
 }
 
+type v12State struct {
+	Gs    map[string]v12Group `json:"gs"`
+	Pend  map[string][]v12SD  `json:"pend"`
+	Parts map[string]int32    `json:"parts"`
+	Idx   uint64              `json:"idx"`
+}
+
+type v12Obs struct {
+	A   string      `json:"a"`
+	Srv string      `json:"srv"`
+	Err string      `json:"err"`
+	Ret interface{} `json:"ret"`
+}
+
+type v12Event struct {
+	T    int                    `json:"t"`
+	A    string                 `json:"a"`
+	Args map[string]interface{} `json:"args"`
+	St   v12State               `json:"st"`
+	Obs  v12Obs                 `json:"obs"`
+}
